@@ -84,8 +84,22 @@ def main():
             resource.setrlimit(resource.RLIMIT_AS, (lim, lim))
         except Exception:
             pass
+        # tie between the hand-written model and the code: functions whose source differs from the recorded
+        # fingerprints (tools/fingerprints.json) are where model and code may have drifted apart — the correspondence
+        # then runs at failing-input-search volume.  A changed source is not a violation by itself.
+        drift = []
         try:
-            mod.run(res, a.tier, build_ok)
+            from lib import fingerprint
+            drift = fingerprint.changed_for(pid, str(common.REPO))
+        except Exception as e:       # the tie is an aid; its failure must not break the check
+            res.notes.append("fingerprint comparison failed: %s" % e)
+        if drift:
+            res.notes.append("source differs from the fingerprints recorded with the model (%d): %s — correspondence escalated" % (
+                len(drift), "; ".join(drift[:12])))
+        else:
+            res.notes.append("source fingerprints of the functions this property's model mirrors: unchanged")
+        try:
+            mod.run(res, a.tier, build_ok and not drift)
         except Infra:
             raise
         except Exception as e:
